@@ -222,7 +222,9 @@ func genReq(t *rapid.T, spec *SysSpec, prof IngressProfile) *ReqSpec {
 	case 0:
 		rs.Body = nil
 	case 1:
-		rs.Body = make([]byte, maxBody)
+		if maxBody <= 4096 {
+			rs.Body = make([]byte, maxBody)
+		}
 	case 2:
 		if maxBody < 4096 {
 			rs.Body = make([]byte, maxBody+1)
